@@ -20,8 +20,18 @@ ORACLES = {
     'lexcalls':  '  CHECK((OUT[O_FLAGS] & 16u) == 0, "the custom lexer is only asked inside the buffer");\n'
                  '  CHECK(OUT[O_LEXCALLS] == ref_lexcalls, "the custom lexer is asked exactly once per needed term");\n'
                  '  CHECK(OUT[O_LEXHASH] == ref_lexhash, "the custom lexer is asked at the reference offsets (after the same whitespace skipping)");\n',
+    'dual_hist': '  /* the earlier call (O_ALT_*) ran on another input; nothing to compare with it - its only role is to precede this call */\n',
     'silent':    '  if (OUT[O_OK]) CHECK(OUT[O_NMSG] == 0, "a successful non-verbose parse writes nothing");\n',
 }
+
+def writeset_header(unit, allow=r'_ZN2hv|exc_pending'):
+    """ws_check(p): p must not point into any module global of the unit (parser constant, regex_parser_object, c_names, string tables ...) except harness state"""
+    import re
+    gl = [g['c'] for g in unit.info.get('globals', []) if not re.search(allow, g['c'])]
+    o = ['#ifdef __CPROVER__', 'void ws_check(void* p) {']
+    for g in gl: o.append('  __CPROVER_assert(!__CPROVER_same_object(p, (void*)&%s), "WRITESET: write through a pointer into module global %s");' % (g, g))
+    o += ['}', '#else', 'void ws_check(void* p) { (void)p; }', '#endif', '#define WS_GLOBALS %d' % len(gl)]
+    return '\n'.join(o) + '\n'
 
 class ParseCase:
     """one (grammar, LEN, options) instantiation: a C++ unit + harness text + bounds"""
@@ -51,7 +61,7 @@ class ParseCase:
         if self.hashlog: self.defs += ['HASHLOG', 'MAXST=%d' % self.maxst]
         self.wd = wd
         cpp = wrapper or emit.parse_wrapper_cpp(g, variant=variant, ctxkind=ctxkind)
-        self.unit = vlib.Unit(wd, 'u_' + self.name, cpp, defines=self.defs, ir2c_flags=(['--writeset'] if mode == 'writeset' else []))
+        self.unit = vlib.Unit(wd, 'u_' + self.name, cpp, defines=self.defs, ir2c_flags=(['--writeset', '--ws-allow=_ZN2hv|exc_pending'] if mode == 'writeset' else []))
         body = ''.join(ORACLES[a] for a in self.asserts) + extra_body
         self.harness = emit.parse_harness_c(os.path.basename(self.unit.c), lr1.emit_tables(g, self.lr), body, variant=variant, lex_c=(lexref.LexDFA(g.tkinds).emit_c() if g.tkinds else None))
         self.in_assume = in_assume; self.witness = witness
@@ -72,6 +82,10 @@ class ParseCase:
     def query(self, qid=None, witness=False, timeout=900, mem_gb=12, extra_defs=(), witness_expr=None, wtag=''):
         defs = list(self.defs) + list(extra_defs)
         if self.in_assume: defs.append('IN_ASSUME=%s' % self.in_assume)
+        if self.mode == 'writeset':
+            wsh = os.path.join(self.wd, 'ws_%s.h' % self.name)
+            with open(wsh, 'w') as f: f.write(writeset_header(self.unit))
+            defs.append('WS_HEADER="%s"' % os.path.basename(wsh))
         h = self.harness
         if witness:
             # witness twin: same harness, the final assertions replaced by the negation of a reachable interesting outcome
